@@ -572,6 +572,17 @@ var faults = map[string]string{
 	"closeClosed": "cc := make(chan int); close(cc); close(cc)",
 }
 
+// faultForms: the spellings of each kind of run-time fault (the first one is the canonical form)
+var faultForms = map[string][]string{
+	"nilDeref":    {faults["nilDeref"], "var np *int; _ = *np", "var np *int; nv := *np; _ = nv", "var nq *T; _ = nq.a", "var nq *T; nq.a = 1"},
+	"index":       {faults["index"], "ix := 5; xs := []int{1}; _ = xs[ix]", "var ar [2]int; ix := 5; _ = ar[ix]"},
+	"sliceBounds": {faults["sliceBounds"]},
+	"divZero":     {faults["divZero"], "dz := 0; _ = 1 % dz"},
+	"nilMapWrite": {faults["nilMapWrite"], "var nm map[string]int; nm[\"a\"]++"},
+	"badAssert":   {faults["badAssert"]},
+	"closeClosed": {faults["closeClosed"]},
+}
+
 func (r *rend) block(b []*N) {
 	for _, s := range b {
 		r.stmt(s)
@@ -830,7 +841,8 @@ func (r *rend) stmt(s *N) {
 	case "panic":
 		r.line("panic(%s)", Expr(s.E))
 	case "fault":
-		r.line("{ %s }", faults[s.Kind])
+		alts := faultForms[s.Kind]
+		r.line("{ %s }", alts[style.pick(len(alts))])
 	case "recover":
 		call := "recover()"
 		if s.How == "helper" {
